@@ -3084,6 +3084,11 @@ class Interp:
             if isinstance(a, StrV) and isinstance(b, DictV) and b.generic is None:
                 r = a.s in b.d
                 return Sc(sym.Bool(r if isinstance(op, ast.In) else not r))
+            if isinstance(a, Sc) and a.e is not None and a.e[0] == "num" and isinstance(b, DictV) and b.generic is None \
+                    and all(isinstance(k_, (int, float)) and not isinstance(k_, bool) for k_ in b.d):
+                # a known number against the known numeric keys of a dictionary
+                r = any(float(k_) == float(a.e[1]) for k_ in b.d)
+                return Sc(sym.Bool(r if isinstance(op, ast.In) else not r))
             if isinstance(a, Sc) and a.e is not None and isinstance(b, PSet):
                 # membership in a set given by its predicate
                 c = sym.subst_ivar_expr(b.pred, PSet.VAR, a.e)
